@@ -18,17 +18,19 @@ Theorem C13_handover_state : forall cap ops, holds_along handover_ok cap ops.
 Proof. exact handover_along. Qed.
 Print Assumptions C13_handover_state.
 
-(* After every history without kill timeout (OSetupEnd true) and without backend Close (`benign`):
-   client id -> active connection is a partial function; every entry names the connection that holds
-   the session of that id; every session's active connection is not a terminated one, holds exactly
-   that session, and is the registered connection of its client id (unique_ok, Broker/BackendC13.v).
-   Hence two live connections never hold sessions for the same non-empty client id. *)
-Theorem C13_unique_state : forall cap ops,
-  forallb benign ops = true -> unique_ok (run_state (init cap) ops) = true.
+(* After EVERY history — kill timeouts, Setups refused while the backend closes, backend Close and the Terminate of
+   connections whose Setup failed included: client id -> active connection is a partial function; every entry names the
+   connection that holds the session of that id; every session's active connection is not a terminated one, holds
+   exactly that session, and is the registered connection of its client id (unique_ok, Broker/BackendC13.v).
+   Hence two live connections never hold sessions for the same non-empty client id.
+   (Terminate releases a session and an active-clients entry only if they are still the terminating connection's own;
+   with the earlier by-id delete this statement was false after a failed Setup: /repo fix "Terminate never removes
+   another client's entry".) *)
+Theorem C13_unique_state : forall cap ops, unique_ok (run_state (init cap) ops) = true.
 Proof. exact unique_state. Qed.
 Print Assumptions C13_unique_state.
 
-(* the partial-function part needs no hypothesis on the history *)
+(* in particular *)
 Theorem C13_active_partial_function : forall cap ops,
   nodup_keys (st_active (run_state (init cap) ops)) = true.
 Proof. exact active_partial_function. Qed.
@@ -36,31 +38,17 @@ Print Assumptions C13_active_partial_function.
 
 Definition b (s : string) : bytes := list_byte_of_string s.
 
-(* why the two hypotheses: Terminate removes the active-clients entry by client id, so a newcomer
-   whose Setup failed (kill timeout, or ErrClosing after Close) removes the OLD connection's entry
-   when it terminates; a third connection with that id then finds no one to take over *)
-Theorem C13_unique_state_kill_timeout_refuted :
-  exists ops, unique_ok (run_state (init 2) ops) = false.
-Proof.
-  exists [OSetup 1 (b "x") true; OSetup 2 (b "x") true; OSetupEnd true; OTerminate 2].
-  vm_compute; reflexivity.
-Qed.
-Print Assumptions C13_unique_state_kill_timeout_refuted.
-
-Theorem C13_unique_state_close_refuted :
-  exists ops, unique_ok (run_state (init 2) ops) = false.
-Proof.
-  exists [OSetup 1 (b "x") true; OClose; OSetup 2 (b "x") true; OTerminate 2].
-  vm_compute; reflexivity.
-Qed.
-Print Assumptions C13_unique_state_close_refuted.
-
-(* the consequence: two temporary sessions for client id x, both with a connection that has not terminated *)
-Example C13_two_live_connections_after_kill_timeout :
-  let st := run_state (init 2)
-    [OSetup 1 (b "x") true; OSetup 2 (b "x") true; OSetupEnd true; OTerminate 2; OSetup 3 (b "x") true] in
-  map fst (st_temps st) = [1; 3] /\ st_term st = [2] /\ map snd (st_cid st) = [b "x"; b "x"; b "x"].
-Proof. vm_compute; repeat split; reflexivity. Qed.
+(* the histories that used to break the invariant (a newcomer whose Setup failed by kill timeout, or was refused while
+   the backend closes, terminates; then a third connection presents the id): the displaced connection keeps its entry,
+   the third connection has to take it over *)
+Example C13_failed_setup_keeps_entry :
+  let h1 := [OSetup 1 (b "x") true; OSetup 2 (b "x") true; OSetupEnd true; OTerminate 2] in
+  let h2 := [OSetup 1 (b "x") true; OClose; OSetup 2 (b "x") true; OTerminate 2] in
+  st_active (run_state (init 2) h1) = [(b "x", 1)] /\ st_active (run_state (init 2) h2) = [(b "x", 1)] /\
+  fst (run (init 2) (h1 ++ [OSetup 3 (b "x") true])) = [RSetup false; RSetupWait 1; RErrKillTimeout; ROk; RSetupWait 1] /\
+  forallb (fun n => unique_ok (run_state (init 2) (firstn n (h1 ++ [OSetup 3 (b "x") true; OTerminate 1; OMarkClosed 1; OSetupEnd false]))))
+          [0;1;2;3;4;5;6;7;8]%nat = true.
+Proof. vm_compute. repeat split; reflexivity. Qed.
 
 (* non-vacuity: a takeover that hands the session over, and the invariant on its states *)
 Example C13_nonvacuous :
@@ -93,18 +81,16 @@ Print Assumptions C13_session_present_state.
    The cleanup-order assumption "a connection is marked closed only after its Terminate" (broker/client.go
    cleanup(), then close(closed); C12_will / C14_lifecycle) is the guard of OMarkClosed in the model. *)
 
-(* (a) order.  In every benign history a takeover completes (OSetupEnd false returns RSetup) only after, in this
+(* (a) order.  In every history a takeover completes (OSetupEnd false returns RSetup) only after, in this
    order: the newcomer's Setup started waiting for the displaced connection, that connection terminated, it was
    marked closed. *)
 Theorem C13_order : forall cap ops l1 st b st' l2,
-  forallb benign ops = true ->
   trace (init cap) ops = l1 ++ (st, OSetupEnd false, RSetup b, st') :: l2 ->
   exists p a w mid, st_pending st = Some p /\ l1 = a ++ w :: mid /\ is_wait p w /\ closed_after_term (p_old p) mid.
-Proof. exact order_benign. Qed.
+Proof. exact order_full. Qed.
 Print Assumptions C13_order.
 
-(* the same without any hypothesis on the history (kill timeouts, Close allowed): Terminate old, then MarkClosed old,
-   precede the completion *)
+(* a weaker form kept for reference: Terminate old, then MarkClosed old, precede the completion *)
 Theorem C13_order_any : forall cap ops l1 st b st' l2,
   trace (init cap) ops = l1 ++ (st, OSetupEnd false, RSetup b, st') :: l2 ->
   exists p, st_pending st = Some p /\ closed_after_term (p_old p) l1.
@@ -123,12 +109,12 @@ Proof. exact pending_persists. Qed.
 Print Assumptions C13_pending_persists.
 
 (* (b) many contenders.  `completions id tr`: the connections whose Setup for client id `id` completed (directly or
-   at the end of a takeover), in order.  After every benign history, for every client id: a connection active for
+   at the end of a takeover), in order.  After every history, for every client id: a connection active for
    the id is the LAST of them, all earlier ones have terminated, it is the only active one; every connection whose
    Setup completed is either the active one or terminated; no connection completes twice.  (Holds at every point,
    also while a Setup is waiting.) *)
 Theorem C13_many : forall cap ops id,
-  forallb benign ops = true -> id <> [] ->
+  id <> [] ->
   let st := run_state (init cap) ops in
   let tr := trace (init cap) ops in
   (forall c, active_for st id c ->
@@ -175,7 +161,6 @@ Definition three_contenders : list op :=
    ODequeue 3 false].
 
 Example C13_three_contenders :
-  forallb benign three_contenders = true /\
   fst (run (init 2) three_contenders) =
     [RSetup false; ROk; RSetupWait 1; ROk; ROk; ROk; RSetup true;
      RSetupWait 2; RNotEnabled; ROk; ROk; RSetup true; RMsg (Msg (b "a") (b "p1") 1 false)] /\
